@@ -219,12 +219,22 @@ func runCase(c Case) outcome {
 	var wg sync.WaitGroup
 	wg.Add(2)
 	var handshakesDone int32
+	// Each side sends three application messages and then keeps reading, also past a rejected frame (a
+	// lenient request loop): NOTHING may be accepted over a channel whose negotiation was tampered with,
+	// not the first protected frame and not a later one either.
 	app := func(st *stream.Stream, who string) bool {
-		if err := st.SendMessage(ctx, []byte("APPLICATION-DATA-from-"+who)); err != nil {
-			return false
+		for i := 0; i < 3; i++ {
+			if err := st.SendMessage(ctx, []byte(fmt.Sprintf("APPLICATION-DATA-from-%s-%d", who, i))); err != nil {
+				return false
+			}
 		}
-		_, err := st.ReceiveCompleteMessage(ctx)
-		return err == nil
+		accepted := false
+		for i := 0; i < 3; i++ {
+			if _, err := st.ReceiveCompleteMessage(ctx); err == nil {
+				accepted = true
+			}
+		}
+		return accepted
 	}
 	go func() {
 		defer wg.Done()
@@ -325,10 +335,10 @@ func TestC04Tamper(t *testing.T) {
 		// cleartext frames: all but the protected tail. The server's last handshake frame (post-auth ad)
 		// and the two application messages are protected; the resumed shape has no post-auth ad.
 		lens := o.lens
-		nc := len(lens[0]) - 1 // minus the client's application message
-		ns := len(lens[1]) - 2 // minus post-auth ad and the server's application message
+		nc := len(lens[0]) - 3 // minus the client's three application messages
+		ns := len(lens[1]) - 4 // minus post-auth ad and the server's three application messages
 		if sh == "resumed" {
-			ns = len(lens[1]) - 1
+			ns = len(lens[1]) - 3
 		}
 		baseLens[sh] = [2][]int{lens[0][:nc], lens[1][:ns]}
 		ev.Sample("baseline", map[string]any{"shape": sh, "cleartext_frame_lengths_client_to_server": lens[0][:nc], "server_to_client": lens[1][:ns]})
